@@ -329,4 +329,37 @@ theorem readParts_buf_zero (max : Option Nat) (rest : Nat) (r : Rec) (sk : Sink)
   · rename_i h; exact absurd hnil h.2
   · split <;> rfl
 
+theorem Sink.push_inv (buf : Nat) (max : Option Nat) (sk sk' : Sink) (part : Bytes) (h : SinkInv buf sk)
+    (hp : sk.push buf max part = .ok sk') : SinkInv buf sk' ∧ overMax max sk'.size = false := by
+  unfold Sink.push at hp
+  split at hp
+  · cases hp
+  · rename_i hov
+    simp only [Except.ok.injEq] at hp
+    subst hp
+    exact ⟨Sink.extend_inv buf sk part h, by simpa using hov⟩
+
+/-- whatever the loop returns keeps the accounting right: `body_size` is the length written, the
+body is a temporary file exactly when it outgrew the threshold, and it is within the size limit -/
+theorem readParts_inv (strict : Bool) (buf : Nat) (max : Option Nat) :
+    ∀ (rest : Nat) (r : Rec) (sk sk' : Sink), SinkInv buf sk → overMax max sk.size = false →
+      (readParts strict buf max rest r sk).1 = .ok sk' → SinkInv buf sk' ∧ overMax max sk'.size = false := by
+  intro rest
+  induction rest using Nat.strongRecOn with
+  | _ rest ih =>
+    intro r sk sk' hinv hm
+    unfold readParts
+    split
+    · rename_i h
+      have hpos : 0 < (r.read (min rest buf)).1.length := List.length_pos_iff.mpr h.2
+      split
+      · intro he; cases he
+      · rename_i sk1 hpush
+        have := Sink.push_inv buf max sk sk1 _ hinv hpush
+        exact ih _ (by omega) _ sk1 sk' this.1 this.2
+    · split
+      · cases strict <;> simp
+        intro h; subst h; exact ⟨hinv, hm⟩
+      · simp; intro h; subst h; exact ⟨hinv, hm⟩
+
 end Ombott.Body
